@@ -67,17 +67,17 @@ def model_from(shape, exprs, variant=0):
     return T.to_model(shape, label)
 
 
-def expected(groups, cer, soll):
+def expected(groups, cer, soll, parent=None):
     """('ok', list) | ('exc', 'NotImplementedError')"""
     try:
-        return ("ok", R7.walk(groups, own_for(cer), soll))
+        return ("ok", R7.walk(groups, own_for(cer), soll, parent=parent))
     except R7.ExpectNotImplemented:
         return ("exc", "NotImplementedError")
 
 
-def compare(groups, cer, soll, got, check_pool_status=False):
+def compare(groups, cer, soll, got, check_pool_status=False, parent=None):
     """compares an observation of the implementation with R7; returns (kind, expected, observed) or None"""
-    exp = expected(groups, cer, soll)
+    exp = expected(groups, cer, soll, parent)
     if exp[0] == "exc" or got[0] == "exc":
         if exp[0] != got[0] or exp[1] != got[1]:
             return ("exception-behaviour", exp[1] if exp[0] == "exc" else "a result list", got[1] if got[0] == "exc" else "a result list")
